@@ -132,6 +132,17 @@ def run(chk):
                 pl = mir.op_place(t["args"][0])
                 ty = b.locals[pl["l"]]["ty"] if (pl is not None and not pl["p"]) else ""
                 if "ParserError" in ty and "Result<" in ty:
+                    # `res.or_else(|e| { self.error_or_log(e)?; Ok(default) })`: the error is handed to the single decision point
+                    # inside the closure - the same thing as `match res { Err(e) => { self.error_or_log(e)?; .. } }`
+                    if re.search(r"::(or_else|map_err|unwrap_or_else)$", r) and len(t["args"]) > 1:
+                        cpl = mir.op_place(t["args"][1])
+                        cl = None
+                        if cpl is not None and not cpl["p"]:
+                            for bj, sj, st in b.stmts():
+                                if st["k"] == "assign" and not st["p"]["p"] and st["p"]["l"] == cpl["l"] and st["rv"]["r"] == "agg" and st["rv"].get("kind") == "closure":
+                                    cl = st["rv"].get("cl")
+                        if cl in prog.bodies and any((t2.get("res") or "").endswith("error_or_log") for bj, t2 in prog.bodies[cl].calls()):
+                            continue
                     nsw += 1
                     base = re.sub(r"::\{closure#\d+\}", "", mir.strip_generics(fid))
                     if base.startswith("<specification::") or base.startswith("specification::"):
